@@ -8,3 +8,13 @@ check('C01',
   'Every ordered table of up to 3 patterns (4 over a core pool) drawn from a 25-pattern pool that contains colliding inputs for every indexing shortcut of the router, with every method-set assignment, is registered on a real router and every one of 259 paths x 3-4 methods is resolved through Router.Match and ServeHTTP and compared with an independent reference resolver (back-tracking matcher + the documented tier rule). Nothing is sampled; the enumeration is complete within the stated alphabets.',
   'Small-scope: <=4 routes, <=3 path segments over 6 segment strings. The reference matcher and resolver (mc/refmodel/route.go) are trusted; they share no code with rux and are sanity-tested against hand-computed cases.',
   'DESIGN.md 5 C01')
+check('C02',
+  'bounded exhaustive enumeration of (pattern, request history) against a back-tracking reference matcher',
+  'For each of 15 multi-variable patterns every ordered pair of candidate paths (all tuples over 12 values at every optional depth plus perturbations) is requested as the history p,q,p,q on routers with the cache off, capacity 1 and capacity 2, through Match and through ServeHTTP; the reported parameters must be a decomposition of the normalised path by the pattern (all decompositions are computed by an independent back-tracking matcher), non-matching paths must not reach the route, and the handler must see the same parameters.',
+  'Values and patterns come from fixed alphabets; the reference matcher is trusted. Selection between several routes is C01.',
+  'DESIGN.md 5 C02')
+check('C06',
+  'bounded exhaustive enumeration of (route table, option set, request) against a reference resolver',
+  'Every ordered table of up to 2 (thorough 3) routes from an 11-route pool x all 16 option subsets x 6 InterceptAll values x default/custom NotFound and NotAllowed handlers is built; all 10 methods x 8 paths are resolved twice through Match and ServeHTTP and compared with the documented resolution order (direct, HEAD->GET, fallback route, 405 with exact allowed set / Allow header / OPTIONS 200, 404).',
+  'Bounded tables and path alphabet; reference resolver trusted.',
+  'DESIGN.md 5 C06')
